@@ -4,7 +4,7 @@
    hold for ALL of them: all event histories (duplicates per key, out-of-order blocks, ties),
    request states, ages, confirmation counts, limits, task lists and checklists. *)
 From Coq Require Import ZArith NArith List Permutation Sorted.
-From KV Require Import Gen.Consts_C33 Model.C33 Proofs.C33.
+From KV Require Import Common.Verdict Gen.Consts_C33 Model.C33 Proofs.C33.
 Import ListNotations.
 Open Scope Z_scope.
 
@@ -276,3 +276,108 @@ Theorem gen_spec_ok_iff :
   forall c, gen_spec_ok c = true <-> gc_out c = fst (generate (gc_tasks c) (gc_checklist c)).
 Proof. exact Proofs.C33.gen_spec_ok_iff. Qed.
 Print Assumptions gen_spec_ok_iff.
+
+(* ================================================================== *)
+(* the production generator on one window                              *)
+(* ================================================================== *)
+(* NewProposalGenerator's task list (DepositSweep = action 2, Redemption = 3, Heartbeat = 1)
+   run on one window's chain state: [pg_spec_ok] holds iff walking the checklist, every action
+   before the deciding one yields nothing according to the deposit / redemption property (no
+   eligible deposit, no eligible request) or has no task, and the observed proposal (or error)
+   is the one the deciding action's property accepts; the no-op proposal iff no action decides *)
+Definition pg_skipsP (c : pg_case) (a : N) : Prop :=
+  (a = 2%N /\ dep_spec_ok (with_dout (pg_dep c) (DepOk [])) = true) \/
+  (a = 3%N /\ red_spec_ok (with_rout (pg_red c) (RedOk [])) = true) \/
+  (a <> 1%N /\ a <> 2%N /\ a <> 3%N).
+Definition pg_decidesP (c : pg_case) (a : N) : Prop :=
+  (a = 2%N /\
+   ((exists l, pg_out c = PSweep l /\ l <> [] /\
+               dep_spec_ok (with_dout (pg_dep c) (DepOk l)) = true) \/
+    (pg_out c = PErr /\
+     exists o, (o = DepErrChain \/ o = DepErrNoRequest \/ o = DepErrWallet) /\
+               dep_spec_ok (with_dout (pg_dep c) o) = true))) \/
+  (a = 3%N /\
+   ((exists l, pg_out c = PRedeem l /\ l <> [] /\
+               red_spec_ok (with_rout (pg_red c) (RedOk l)) = true) \/
+    (pg_out c = PErr /\
+     exists o, (o = RedErrChain \/ o = RedErrWallet) /\
+               red_spec_ok (with_rout (pg_red c) o) = true))) \/
+  (a = 1%N /\
+   ((pg_out c = PHeartbeat /\ pg_hb_ok c = true) \/ (pg_out c = PErr /\ pg_hb_ok c = false))).
+
+Theorem pg_spec_ok_iff :
+  forall c,
+    pg_spec_ok c = true <->
+    (pg_out c = PNoop /\ Forall (pg_skipsP c) (pg_checklist c)) \/
+    exists pre a post, pg_checklist c = pre ++ a :: post /\ Forall (pg_skipsP c) pre /\
+                       pg_decidesP c a.
+Proof. exact Proofs.C33.pg_spec_ok_iff. Qed.
+Print Assumptions pg_spec_ok_iff.
+
+(* a deposit sweep proposal returned by the generator carries exactly the first eligible
+   deposits (old enough, not yet swept, confirmed — all AT THAT WINDOW) in reveal order, at most
+   the maximum count of that window *)
+Theorem pg_sweep_content :
+  forall c l,
+    pg_wf c = true -> pg_spec_ok c = true -> pg_out c = PSweep l ->
+    l <> [] /\
+    exists ma evs, dc_min_age (pg_dep c) = Some ma /\ dc_events (pg_dep c) = Some evs /\
+      let sorted := dep_sorted (dc_wallet (pg_dep c)) evs in
+      l = map to_ref
+            (firstn (Z.to_nat (dep_cap (dc_max (pg_dep c)) sorted))
+               (filter_map (dep_eligible (dc_req (pg_dep c)) (dc_conf (pg_dep c))
+                              (dc_now (pg_dep c)) ma true true) sorted)).
+Proof. exact Proofs.C33.pg_sweep_content. Qed.
+Print Assumptions pg_sweep_content.
+
+(* ================================================================== *)
+(* window histories on the long-lived objects: no memory               *)
+(* ================================================================== *)
+(* One ProposalGenerator / DepositSweepTask / RedemptionTask lives as long as the node
+   (cmd/start.go) and is run on every coordination window while the chain state evolves.  The
+   model threads the object through the windows ([history_st]); the outputs of a history are the
+   per-window discovery function mapped over the per-window chain states *)
+Theorem history_no_memory : forall n ws, history_st n ws = map explain ws.
+Proof. exact Proofs.C33.history_no_memory. Qed.
+Print Assumptions history_no_memory.
+
+(* ... so what a window returns does not depend on the windows before or after it *)
+Theorem history_past_future_irrelevant :
+  forall n before after w,
+    nth_error (history_st n (before ++ w :: after)) (length before) = Some (explain w).
+Proof. exact Proofs.C33.history_past_future_irrelevant. Qed.
+Print Assumptions history_past_future_irrelevant.
+
+(* the executable history property is the per-window property at every window, each evaluated
+   against that window's own chain state (deposits not yet swept AT THAT WINDOW, requests
+   pending AT THAT WINDOW, that window's parameters and limits) *)
+Theorem hist_spec_iff :
+  forall ws, hist_spec ws = true <-> forall i w, nth_error ws i = Some w -> spec_of w = true.
+Proof. exact Proofs.C33.hist_spec_iff. Qed.
+Print Assumptions hist_spec_iff.
+
+(* the correspondence check of a history compares every observed window output with the
+   threaded model's, which is the per-window comparison *)
+Theorem hist_agree_iff : forall ws, hist_agree ws = forallb agree_of ws.
+Proof. exact Proofs.C33.hist_agree_iff. Qed.
+Print Assumptions hist_agree_iff.
+
+(* a history is accepted iff every window, judged alone against its own state, is accepted *)
+Theorem judge_hist_agree :
+  forall ws,
+    judge_any (CHist ws) = Agree <->
+    ws <> [] /\ forall i w, nth_error ws i = Some w -> judge w = Agree.
+Proof. exact Proofs.C33.judge_hist_agree. Qed.
+Print Assumptions judge_hist_agree.
+
+(* every model history of deposit searches and generator calls satisfies the history property *)
+Theorem model_history_passes :
+  forall ws,
+    Forall (fun w => match w with
+                     | CDep c => dc_out c = model_deposits c
+                     | CGen c => gc_out c = fst (generate (gc_tasks c) (gc_checklist c))
+                     | _ => False
+                     end) ws ->
+    hist_spec ws = true.
+Proof. exact Proofs.C33.model_history_passes. Qed.
+Print Assumptions model_history_passes.
